@@ -11,6 +11,7 @@ import (
 	"net/http"
 	"net/url"
 	"strconv"
+	"sync"
 	"sync/atomic"
 	"time"
 )
@@ -29,24 +30,24 @@ type Req struct {
 
 // Result what the client saw
 type Result struct {
-	ReqID   string
-	Req     Req
-	CallSeq int64
-	RetSeq  int64
-	VCall   int64
-	VRet    int64
-	Err     error
-	Status  int
-	Header  http.Header
-	Raw     []byte
-	CE      string
-	Decoded []byte
-	DecErr  error
-	Label   string
-	Age     int // -1 when absent
-	AgeRaw  string
-	FetchID int64 // from X-Fetch; 0 when absent
-	Ident   Ident
+	ReqID    string
+	Req      Req
+	CallSeq  int64
+	RetSeq   int64
+	VCall    int64
+	VRet     int64
+	Err      error
+	Status   int
+	Header   http.Header
+	Raw      []byte
+	CE       string
+	Decoded  []byte
+	DecErr   error
+	Label    string
+	Age      int // -1 when absent
+	AgeRaw   string
+	FetchID  int64 // from X-Fetch; 0 when absent
+	Ident    Ident
 	HasIdent bool
 	CLHeader string
 }
@@ -82,11 +83,15 @@ func Sha(b []byte) string {
 
 // Client recording http client
 type Client struct {
-	HC    *http.Client
-	Clock func() int64
-	next  atomic.Int64
-	Pfx   string
+	cancelMu sync.Mutex
+	cancels  map[int64]context.CancelFunc
+	HC       *http.Client
+	Clock    func() int64
+	next     atomic.Int64
+	Pfx      string
 }
+
+var clientCounter atomic.Int64
 
 // NewClient a client whose transport never negotiates compression itself
 func NewClient(clock func() int64) *Client {
@@ -98,12 +103,21 @@ func NewClient(clock func() int64) *Client {
 		MaxIdleConns:        1024,
 		MaxIdleConnsPerHost: 256,
 		IdleConnTimeout:     30 * time.Second,
-		DialContext: (&net.Dialer{Timeout: 5 * time.Second}).DialContext,
+		DialContext:         (&net.Dialer{Timeout: 5 * time.Second}).DialContext,
 	}
 	return &Client{
-		HC: &http.Client{Transport: tr, CheckRedirect: func(*http.Request, []*http.Request) error { return http.ErrUseLastResponse }},
-		Clock: clock, Pfx: "r",
+		HC:    &http.Client{Transport: tr, CheckRedirect: func(*http.Request, []*http.Request) error { return http.ErrUseLastResponse }},
+		Clock: clock, Pfx: "r" + strconv.FormatInt(clientCounter.Add(1), 10) + "-",
 	}
+}
+
+// Abort cancels every request of this client that is in flight (their connections are closed)
+func (c *Client) Abort() {
+	c.cancelMu.Lock()
+	for _, cancel := range c.cancels {
+		cancel()
+	}
+	c.cancelMu.Unlock()
 }
 
 // CloseIdle drops idle connections
@@ -129,6 +143,18 @@ func (c *Client) Do(rq Req) *Result {
 	}
 	ctx, cancel := context.WithTimeout(context.Background(), timeout)
 	defer cancel()
+	cid := c.next.Add(1)
+	c.cancelMu.Lock()
+	if c.cancels == nil {
+		c.cancels = map[int64]context.CancelFunc{}
+	}
+	c.cancels[cid] = cancel
+	c.cancelMu.Unlock()
+	defer func() {
+		c.cancelMu.Lock()
+		delete(c.cancels, cid)
+		c.cancelMu.Unlock()
+	}()
 	hreq, err := http.NewRequestWithContext(ctx, rq.Method, "http://"+rq.Addr+"/", body)
 	if err != nil {
 		res.Err = err
